@@ -2,13 +2,13 @@ package main
 
 import (
 	"bufio"
-	"syscall"
 	"bytes"
 	"crypto/ed25519"
 	"crypto/rand"
 	"encoding/json"
 	"fmt"
 	"image"
+	"io"
 	"io/ioutil"
 	"math/big"
 	"net"
@@ -17,6 +17,7 @@ import (
 	"strconv"
 	"strings"
 	"sync"
+	"syscall"
 	"time"
 
 	"github.com/brutella/hc"
@@ -42,19 +43,19 @@ type world struct {
 		VerifTxtRecords() map[string]string
 		XHMURI() (string, error)
 	}
-	port    int
-	accs    []*accessory.Accessory
-	conns   map[string]*ctlConn
-	ids     map[string]*identity
-	setups  map[string]*setupRun
-	verifs  map[string]*verifyRun
-	cbMu    sync.Mutex
-	cbLog   []string
-	accLTPK []byte
-	pin     string
-	lastOK  [][]byte // request bodies of the last completed pair-setup
+	port           int
+	accs           []*accessory.Accessory
+	conns          map[string]*ctlConn
+	ids            map[string]*identity
+	setups         map[string]*setupRun
+	verifs         map[string]*verifyRun
+	cbMu           sync.Mutex
+	cbLog          []string
+	accLTPK        []byte
+	pin            string
+	lastOK         [][]byte             // request bodies of the last completed pair-setup
 	lastVerifyPriv map[string]*[32]byte // per controller: the exchange private key of its last accepted pair-verify
-	wseg    int
+	wseg           int
 }
 
 func (w *world) code() string { return w.pin[:3] + "-" + w.pin[3:5] + "-" + w.pin[5:] }
@@ -461,7 +462,10 @@ func runStack(id string, toks []string) (res string) {
 		case "STALL":
 			emit(w.stalledSubscriber(p[1], p[2], p[3], p[4]))
 		case "STORM":
-			emit(w.eventStorm(p[1], p[2]))
+			emit(w.eventStorm(p[1], p[2], "/characteristics?id=1.5"))
+		case "STORMA":
+			// the same while the subscriber keeps fetching the whole attribute database (an answer of many writes)
+			emit(strings.Replace(w.eventStorm(p[1], p[2], "/accessories"), "STORM=", "STORMA=", 1))
 		case "VR":
 			emit(w.verifyReplay(p[1], p[2]))
 		case "RACE":
@@ -1136,7 +1140,7 @@ func dialSharedSource(port int) (*ctlConn, *ctlConn, error) {
 // eventStorm: STORM:<conn>:<n>   the connection (verified, subscribed to the unbounded uint32 characteristic 4.14) keeps
 // sending requests while the application changes the value n times: every change must arrive as exactly one event, in
 // order, and the stream must stay decryptable.
-func (w *world) eventStorm(cn, ns string) string {
+func (w *world) eventStorm(cn, ns, path string) string {
 	cc := w.conns[cn]
 	if cc == nil || cc.dead {
 		return "STORM=noconn"
@@ -1149,6 +1153,9 @@ func (w *world) eventStorm(cn, ns string) string {
 	base := 1000000
 	stop := make(chan struct{})
 	done := make(chan string, 1)
+	// everything the connection delivers from now on is also recorded (per request), to tell failures apart
+	var rec bytes.Buffer
+	cc.br = bufio.NewReader(io.TeeReader(cc.br, &rec))
 	go func() {
 		for {
 			select {
@@ -1157,8 +1164,16 @@ func (w *world) eventStorm(cn, ns string) string {
 				return
 			default:
 			}
-			if _, err := cc.request("GET", "/characteristics?id=1.5", "", nil); err != nil {
-				done <- "request-failed:" + err.Error()
+			rec.Reset()
+			_, err := cc.request("GET", path, "", nil)
+			if err != nil {
+				// what went wrong with the answer? an EVENT message inside it (after its status line) is told apart
+				raw := rec.Bytes()
+				if i := bytes.Index(raw, []byte("HTTP/1.1 ")); i >= 0 && bytes.Contains(raw[i:], []byte("EVENT/1.0 200 OK")) {
+					done <- "event-inside-response"
+				} else {
+					done <- "request-failed:" + err.Error()
+				}
 				return
 			}
 		}
